@@ -100,6 +100,7 @@ type ArmLoop struct {
 	Ops       map[*ssa.BasicBlock]opset
 	Effects   map[*ssa.BasicBlock][]Effect
 	feas      map[int]map[cfgEdge]bool // per operation constant: the feasible edges of Fn
+	entryOps  opset                    // the operation types that reach the body (all, unless a helper filters)
 }
 
 // FindArmLoops finds every `for r.Next()` loop over a commit.Reader in fn.
@@ -114,8 +115,19 @@ func FindArmLoops(p *Prog, fn *ssa.Function) []*ArmLoop {
 			continue
 		}
 		call, ok := iff.Cond.(*ssa.Call)
-		if !ok || call.Block() != b || !methodOn(&call.Call, CommitPath, "Reader", "Next") {
+		if !ok || call.Block() != b {
 			continue
+		}
+		// the loop is driven by Reader.Next, or by a helper that advances the reader itself and
+		// returns true when it stands on an operation to process (`for nextFinal(r) { … }`):
+		// the operation types the helper lets through are the ones the body can see
+		entryOps := opAll
+		if !methodOn(&call.Call, CommitPath, "Reader", "Next") {
+			ops, isDriver := nextDriverOps(call)
+			if !isDriver {
+				continue
+			}
+			entryOps = ops
 		}
 		// is the head inside a cycle through the true edge?
 		body := map[*ssa.BasicBlock]bool{}
@@ -150,12 +162,53 @@ func FindArmLoops(p *Prog, fn *ssa.Function) []*ArmLoop {
 			continue // not a loop
 		}
 		a := &ArmLoop{P: p, Fn: fn, Next: call, Reader: call.Call.Args[0], Head: b, BodyEntry: b.Succs[0],
-			InBody: back, Ops: map[*ssa.BasicBlock]opset{}, Effects: map[*ssa.BasicBlock][]Effect{}}
+			InBody: back, Ops: map[*ssa.BasicBlock]opset{}, Effects: map[*ssa.BasicBlock][]Effect{}, entryOps: entryOps}
 		a.computeOps()
 		a.computeEffects()
 		out = append(out, a)
 	}
 	return out
+}
+
+// nextDriverOps: the call is to a library helper taking the reader that (deep) calls Reader.Next
+// and returns a bool; reports the operation types under which it can return true — i.e., with
+// every test of Reader.Type answered for that type, a `return true` is reachable.
+func nextDriverOps(call *ssa.Call) (opset, bool) {
+	sc := call.Call.StaticCallee()
+	if sc == nil || !isHelper(sc) || len(call.Call.Args) == 0 {
+		return 0, false
+	}
+	o := originOf(sc)
+	if o.Signature.Results().Len() != 1 {
+		return 0, false
+	}
+	if b, ok := o.Signature.Results().At(0).Type().Underlying().(*types.Basic); !ok || b.Kind() != types.Bool {
+		return 0, false
+	}
+	if len(callsToDeep(o, false, "(*commit.Reader).Next")) == 0 {
+		return 0, false
+	}
+	var ops opset
+	for op := 0; op <= opOther; op++ {
+		op := op
+		reach, _ := feasibleUnder(o, func(v ssa.Value) (bool, bool) {
+			if k, eq, ok := typeTest(v); ok {
+				return (k == op) == eq, true
+			}
+			return false, false
+		})
+		for _, ret := range returnsOf(o) {
+			if !reach[ret.Block()] {
+				continue
+			}
+			res := ret.Results[0]
+			if c, isC := res.(*ssa.Const); isC && c.Value != nil && c.Value.String() == "false" {
+				continue
+			}
+			ops |= 1 << uint(op)
+		}
+	}
+	return ops, true
 }
 
 // typeTest recognises `r.Type == K` / `r.Type != K`.
@@ -205,6 +258,9 @@ func (a *ArmLoop) computeOps() {
 			return false, false
 		})
 		a.feas[op] = feas
+		if !a.entryOps.has(op) {
+			continue
+		}
 		seen := map[*ssa.BasicBlock]bool{a.BodyEntry: true}
 		work := []*ssa.BasicBlock{a.BodyEntry}
 		for len(work) > 0 {
